@@ -1120,7 +1120,8 @@ def dmt_block_valid(arr: np.ndarray, dm_delays: np.ndarray) -> np.ndarray:
         raise ValueError(msg)
     res = np.empty((ndms, valid_samples), dtype=arr.dtype)
     for idm in range(ndms):
-        res[idm] = np.sum(roll_block_valid(arr, dm_delays[idm]), axis=0)
+        rolled = roll_block(arr, dm_delays[idm])
+        res[idm] = np.sum(rolled[:, max_pos_shift : nsamps + min_neg_shift], axis=0)
     return res
 
 
